@@ -92,3 +92,46 @@ impl BrakedownPCParams {
 //@body
 //@end
 }
+// ---- LinearCodePCS::{setup, trim} (linear_codes/mod.rs): admission of the parameters  (C17, C09) ----
+//@enum file=poly-commit/src/error.rs name=Error
+pub mod pcs {
+    use super::*;
+    // the code's parameters, hash parameters and `L::setup` are external: deterministic functions of their arguments
+    #[verifier::external_body] pub struct LParams { _x: u8 }
+    #[verifier::external_body] pub struct HashP { _x: u8 }
+    pub uninterp spec fn lp_max_degree(p: &LParams) -> usize;                     // <UniversalParams as PCUniversalParams>::max_degree
+    pub uninterp spec fn l_setup(max_degree: usize, num_vars: Option<usize>, id: int, pos: nat) -> LParams;
+    impl LParams { #[verifier::external_body] pub fn clone(&self) -> (r: LParams) ensures r == *self { unimplemented!() } }
+    #[verifier::external_body] pub fn pp_max_degree(p: &LParams) -> (r: usize) ensures r == lp_max_degree(p) { unimplemented!() }
+    // the three CRH setups (`.unwrap()`: a failing one aborts) and L::setup, drawing from the caller's RNG
+    #[verifier::external_body] pub fn hash_setup(rng: &mut Rng) -> (r: HashP) ensures final(rng).id == old(rng).id, final(rng).present == old(rng).present { unimplemented!() }
+    #[verifier::external_body] pub fn code_setup(max_degree: usize, num_vars: Option<usize>, rng: &mut Rng, a: HashP, b: HashP, c: HashP) -> (r: LParams)
+        ensures r == l_setup(max_degree, num_vars, old(rng).id@, old(rng).pos@) { unimplemented!() }
+    #[verifier::external_body] pub fn field_size_error() -> (r: String) { unimplemented!() }     // FIELD_SIZE_ERROR.to_string(): error text only
+    pub struct LinearCodePCS;
+    impl LinearCodePCS {
+//@fn id=linear_codes.setup file=poly-commit/src/linear_codes/mod.rs scope="impl<L, F, P, C, H> PolynomialCommitment<F, P> for LinearCodePCS<L, F, P, C, H>" name=setup props=C17,C09
+        fn setup(max_degree: usize, num_vars: Option<usize>, rng: &mut Rng) -> (res: Result<LParams, Error>)
+        ensures
+            // refused exactly when the code's parameters cannot hold the requested degree (or are unusable: zero)
+            res is Ok ==> max_degree <= lp_max_degree(&res->Ok_0) && lp_max_degree(&res->Ok_0) != 0,   // name=linear_codes.setup.parameters_cover_the_requested_degree props=C17,C09
+            res is Err ==> exists|pp: LParams| #![trigger lp_max_degree(&pp)] (max_degree > lp_max_degree(&pp) || lp_max_degree(&pp) == 0),   // name=linear_codes.setup.only_unusable_parameters_are_refused props=C17
+//@body
+//@rw 1 /<C::LeafHash as CRHScheme>::setup\(rng\)\.unwrap\(\)/ => hash_setup(rng)
+//@rw 1 /(?s)<C::TwoToOneHash as TwoToOneCRHScheme>::setup\(rng\)\s*\.unwrap\(\)\s*\.clone\(\)/ => hash_setup(rng)
+//@rw 1 /<H as CRHScheme>::setup\(rng\)\.unwrap\(\)/ => hash_setup(rng)
+//@rw 1 /L::setup::<R>\(/ => code_setup(
+//@rw 1 /<Self::UniversalParams as PCUniversalParams>::max_degree\(&pp\)/ => pp_max_degree(&pp)
+//@rw 1 /FIELD_SIZE_ERROR\.to_string\(\)/ => field_size_error()
+//@end
+//@fn id=linear_codes.trim file=poly-commit/src/linear_codes/mod.rs scope="impl<L, F, P, C, H> PolynomialCommitment<F, P> for LinearCodePCS<L, F, P, C, H>" name=trim props=C17,C09
+        fn trim(pp: &LParams, _supported_degree: usize, _supported_hiding_bound: usize, _enforced_degree_bounds: Option<&[usize]>) -> (res: Result<(LParams, LParams), Error>)
+        ensures
+            (res is Err) == (lp_max_degree(pp) == 0),   // name=linear_codes.trim.refused_iff_parameters_unusable props=C17
+            res is Ok ==> res->Ok_0.0 == *pp && res->Ok_0.1 == *pp,   // name=linear_codes.trim.committer_and_verifier_key_are_the_parameters props=C09
+//@body
+//@rw 1 /<Self::UniversalParams as PCUniversalParams>::max_degree\(pp\)/ => pp_max_degree(pp)
+//@rw 1 /FIELD_SIZE_ERROR\.to_string\(\)/ => field_size_error()
+//@end
+    }
+}
